@@ -279,11 +279,12 @@ gen_repeat (gen_t *g, int slot)
 void
 gen_clip (gen_t *g, int slot, int maybe_null)
 {
-    int64_t a[40];
+    int64_t a[96];
     int n = prefix (g, a), cnt, i;
     int w = g->s[slot].w > 0 ? g->s[slot].w : 10, h = g->s[slot].h > 0 ? g->s[slot].h : 10;
     a[n++] = slot;
     if (maybe_null && rng_chance (R, 1, 3)) cnt = -1;
+    else if (rng_chance (R, 1, 8)) cnt = (int)rng_range (R, 17, 20);     /* more boxes than the 16<->32 conversion keeps on its stack */
     else cnt = (int)rng_range (R, 0, 4);
     a[n++] = cnt;
     for (i = 0; i < cnt; i++)
@@ -322,7 +323,8 @@ gen_alpha_map (gen_t *g, int slot, int map)
     if (!g->s[slot].used || g->s[slot].refs <= 0) return;
     if (map >= 0)
     {
-	if (!g->s[map].used || g->s[map].refs <= 0 || g->s[map].kind != MOP_BITS) return;
+	if (!g->s[map].used || g->s[map].kind != MOP_BITS) return;
+	if (g->s[map].refs <= 0 && g->s[slot].has_alpha != map) return;
 	if (g->s[slot].alpha_of > 0 || g->s[map].has_alpha >= 0 || map == slot) return;
     }
     if (g->s[slot].has_alpha != map)
@@ -560,7 +562,7 @@ gen_glyphs (gen_t *g, int c, int src, int dst)
 void
 gen_region_op (gen_t *g)
 {
-    int64_t a[64];
+    int64_t a[96];
     int n = prefix (g, a), kind, i, cnt;
     static const int kinds[] = { MOP_R_INIT_RECTS, MOP_R_INIT_RECTS, MOP_R_BINOP, MOP_R_BINOP, MOP_R_BINOP, MOP_R_RECTOP, MOP_R_COPY,
 				 MOP_R_INVERSE, MOP_R_CONV, MOP_R_FINI };
@@ -569,7 +571,7 @@ gen_region_op (gen_t *g)
     switch (kind)
     {
     case MOP_R_INIT_RECTS:
-	cnt = (int)rng_range (R, 0, 12);
+	cnt = rng_chance (R, 1, 5) ? (int)rng_range (R, 17, 20) : (int)rng_range (R, 0, 12);
 	a[n++] = rng_n (R, M_NREG); a[n++] = cnt;
 	for (i = 0; i < cnt; i++)
 	{
